@@ -136,6 +136,50 @@ def run_module_cases(S, tier):
                 shutil.rmtree(td, ignore_errors=True)
 
 
+def run_after_generate(S, tier):
+    """The record of a parsed schema is a function of its source: every sequence of generator runs (length <= 2,
+    thorough 3) on the parsed object leaves fcp.reflection() what it was before (a generator that writes defaults or
+    a sort into the tree it was handed shows here)."""
+    import contextlib
+    import io
+    import itertools
+    import shutil
+    import tempfile
+    from fcp.parser import get_fcp_from_string
+    from fcp.error import Logger
+    from . import c17, c20
+
+    texts = dict(c17.EXTRA)
+    for bname, base in c20.BASES.items():
+        texts["c20:" + bname] = print_schema(base)
+    scratch = tempfile.mkdtemp(prefix="fcpmc-c12g-")
+    try:
+        for name, text in sorted(texts.items()):
+            want = get_fcp_from_string(text, Logger({})).unwrap().reflection()
+            for n in (1, 2) if tier == "quick" else (1, 2, 3):
+                for seq in itertools.product(c17.GENERATORS, repeat=n):
+                    S.count("states")
+                    S.count("executions")
+                    S.add("nontrivial", ("after-generate", name, seq))
+                    fcp = get_fcp_from_string(text, Logger({})).unwrap()
+                    for g in seq:
+                        S.count("transitions")
+                        with contextlib.redirect_stdout(io.StringIO()):
+                            c17.generate(g, fcp, scratch)
+                    try:
+                        got = fcp.reflection()
+                    except Exception as e:  # noqa
+                        got = "%s: %s" % (type(e).__name__, str(e)[:200])
+                    if isinstance(got, dict) and refcodec.same(strip_meta(got), strip_meta(want)):
+                        S.add("outcomes", "after-generate-ok")
+                    else:
+                        S.add("outcomes", "after-generate-differs")
+                        d = reftree.project_diff(_exactify(strip_meta(want)), strip_meta(got)) if isinstance(got, dict) else [got]
+                        S.violation("C12.history", "C12.history/record-differs-after-generating/%s" % "+".join(sorted(set(seq))), {"text": text, "schema": name, "generators_run_first": list(seq)}, expected="the record of the freshly parsed text", actual={"diffs": d[:8]})
+    finally:
+        shutil.rmtree(scratch, ignore_errors=True)
+
+
 def run(tier):
     common.bind_repo()
     r = Run("C12", tier)
@@ -145,10 +189,11 @@ def run(tier):
         r.stats.merge(s)
     r.stats.c["transitions"] += transitions
     run_module_cases(r.stats, tier)
+    run_after_generate(r.stats, tier)
     r.rule = (
         "states = C07's schema descriptions (every node kind, with/without units, ranges, signal blocks, services; type nesting to the depth bound); "
         "each is parsed, reflected (FcpV2.reflection), compared with the record computed from the description (projection on the attributes the statement names), "
-        "serialized with the built-in reflection schema through serde and decoded back (must equal the record, floats bit-exact). non-trivial = >= 2 declarations."
+        "serialized with the built-in reflection schema through serde and decoded back (must equal the record, floats bit-exact). Plus: schemas split over modules (record equals the single file's), and every sequence of <= 2 (thorough 3) generator runs on a parsed object followed by reflection (record equals that of the fresh parse). non-trivial = >= 2 declarations."
     )
     r.assumptions = ["expected record builder fcpmc/reftree.py", "meta values are only required to survive the round trip"]
     return r.finish()
